@@ -57,9 +57,21 @@ func stressMetrics(cfg M, tr *Trace, seed int64) {
 				m.StatusCodesCounts()
 				m.TotalCount()
 				m.NetworkErrorCount()
-				if k%16 == 0 {
-					m.Export()
-					m.LatencyHistogram()
+				if k%4 == 0 {
+					// what an inspector gets it also reads, after the call has returned (as the breaker's latency predicate does)
+					if cp := m.Export(); cp != nil {
+						cp.TotalCount()
+						cp.NetworkErrorRatio()
+						if h, err := cp.LatencyHistogram(); err == nil {
+							h.LatencyAtQuantile(50)
+						}
+					}
+					if h, err := m.LatencyHistogram(); err == nil {
+						h.LatencyAtQuantile(50)
+						runtime.Gosched()
+						h.LatencyAtQuantile(99)
+						h.ValueAtQuantile(100)
+					}
 				}
 				runtime.Gosched()
 			}
@@ -114,7 +126,7 @@ func stressRate(cfg M, tr *Trace, seed int64) {
 	nsrc := numOr(cfg, "sources", 5)
 	// several rounds, each on a fresh limiter: the first requests of every source (where its bucket set is created) race
 	rounds := numOr(cfg, "rounds", 30)
-	total, worst := int64(0), int64(burst)
+	total, worst, most := int64(0), int64(burst), int64(0)
 	for round := 0; round < rounds; round++ {
 		var ok sync.Map
 		h := http.HandlerFunc(func(w http.ResponseWriter, req *http.Request) {
@@ -124,7 +136,19 @@ func stressRate(cfg M, tr *Trace, seed int64) {
 		ex, _ := utils.NewExtractor("request.header.X-Src")
 		rs := ratelimit.NewRateSet()
 		rs.Add(time.Hour, 1, int64(burst))
-		tl, err := ratelimit.New(h, ex, rs, ratelimit.Capacity(64), ratelimit.Logger(jitterLogger{}))
+		tlopts := []ratelimit.TokenLimiterOption{ratelimit.Capacity(64), ratelimit.Logger(jitterLogger{})}
+		if round%2 == 1 {
+			// every other round the rates come from a (slow) per-request rate extractor - user code the limiter calls on
+			// every request - that always answers the configured rates: the bound per source is the same
+			tlopts = append(tlopts, ratelimit.ExtractRates(ratelimit.RateExtractorFunc(func(*http.Request) (*ratelimit.RateSet, error) {
+				runtime.Gosched()
+				time.Sleep(20 * time.Microsecond)
+				x := ratelimit.NewRateSet()
+				x.Add(time.Hour, 1, int64(burst))
+				return x, nil
+			})))
+		}
+		tl, err := ratelimit.New(h, ex, rs, tlopts...)
 		if err != nil {
 			fatal("ratelimit.New: %v", err)
 		}
@@ -146,10 +170,18 @@ func stressRate(cfg M, tr *Trace, seed int64) {
 			if n != int64(burst) && (n > worst || worst == int64(burst)) {
 				worst = n
 			}
+			if n > most {
+				most = n
+			}
 		}
 	}
-	tr.Emit(M{"e": "Totals", "what": "admitted over all rounds and sources", "expect": rounds * nsrc * burst, "got": total})
-	tr.Emit(M{"e": "Totals", "what": "admitted of one source in one round (worst)", "expect": burst, "got": worst})
+	t1 := M{"e": "Totals", "what": "admitted over all rounds and sources", "expect": rounds * nsrc * burst, "got": total}
+	t2 := M{"e": "Totals", "what": "admitted of one source in one round (worst)", "expect": burst, "got": worst}
+	tr.Emit(t1)
+	tr.Emit(t2)
+	if c := strOr(cfg, "clause", ""); c != "" { // the upper bound, on behalf of the property that states it
+		tr.Emit(M{"e": "AtMost", "what": "admitted of one source in one round (largest)", "bound": burst, "got": most, "clause": c})
+	}
 }
 
 // stressTTL: the TTL map used directly by several goroutines (it has its own lock and is usable without the rate limiter's):
